@@ -39,7 +39,7 @@ type Behav struct {
 	TermDelay    time.Duration
 	KillLatency  time.Duration // between Kill request and death
 	EventLatency time.Duration // between any death and delivery of its event
-	OnShutdown   string        // extension reaction to SHUTDOWN event: "" = exit 0, "exit1", "ignore", "poll" (keeps polling)
+	OnShutdown   string        // extension reaction to SHUTDOWN event: "" = exit 0, "exit1", "exiterror" (posts exit/error, then exits 1), "ignore", "poll" (keeps polling)
 	ShutDelay    time.Duration
 
 	Internals []InternalSpec
@@ -82,20 +82,21 @@ type InvSpec struct {
 
 // actorState is engine bookkeeping per actor.
 type actorState struct {
-	a          *Actor
-	b          *Behav
-	pc         int
-	readyAt    time.Duration // stall: not before this fake time
-	stopped    bool          // script ended without healthy continuation
-	dieAfter   *int          // next-die: die as soon as the call is parked
-	shutSeen   bool
-	exitAt     time.Duration
-	exitCode   int
-	exitDue    bool
-	stalled    map[int]bool
-	extraPolls map[string]int
-	queue      []Op
-	planned    map[string]bool
+	a            *Actor
+	b            *Behav
+	pc           int
+	readyAt      time.Duration // stall: not before this fake time
+	stopped      bool          // script ended without healthy continuation
+	dieAfter     *int          // next-die: die as soon as the call is parked
+	shutSeen     bool
+	shutReported bool
+	exitAt       time.Duration
+	exitCode     int
+	exitDue      bool
+	stalled      map[int]bool
+	extraPolls   map[string]int
+	queue        []Op
+	planned      map[string]bool
 }
 
 // procState is engine bookkeeping per process.
@@ -131,6 +132,9 @@ type Engine struct {
 	MaxActions       int
 	Bound            time.Duration // liveness bound for the whole run (fake time)
 
+	// HoldAcrossTimers: a held goroutine stays held while fake time passes (up to the hold cap) when nothing else is
+	// due, so that the emulator's own timers can fire meanwhile.
+	HoldAcrossTimers bool
 	// OnQuiescent is called after every external action (true quiescence unless a hold is active).
 	OnQuiescent func()
 	// Extra lets a scenario add its own enabled actions.
@@ -688,7 +692,7 @@ func (e *Engine) enabled() (acts []action, due time.Duration, hasDue bool) {
 				default:
 					s.exitDue = true
 					s.exitAt = e.r.Now() + s.b.ShutDelay
-					if s.b.OnShutdown == "exit1" {
+					if s.b.OnShutdown == "exit1" || s.b.OnShutdown == "exiterror" {
 						s.exitCode = 1
 					}
 				}
@@ -696,6 +700,14 @@ func (e *Engine) enabled() (acts []action, due time.Duration, hasDue bool) {
 		}
 		if s.exitDue && consider(s.exitAt) {
 			acts = append(acts, action{"shutdown-exit " + a.P.Name, func() {
+				if s.b.OnShutdown == "exiterror" && !s.shutReported && !a.Busy() {
+					// reports a failure of its own shutdown first, then exits
+					s.shutReported = true
+					e.r.NextStep()
+					a.ExtExitError("Extension.ShutdownBoom")
+					e.r.Settle()
+					return
+				}
 				s.exitDue = false
 				e.r.NextStep()
 				e.w.Sup.Die(a.P, s.exitCode)
@@ -785,6 +797,17 @@ func (e *Engine) Run() {
 		e.noteOutcomes()
 		acts, due, hasDue := e.enabled()
 		if len(acts) == 0 && r.HeldNow() && !hasDue {
+			if e.HoldAcrossTimers {
+				// the descheduled goroutine stays descheduled while the emulator's own timers may fire, for at most
+				// the hold cap of fake time (SleepUntil releases it then)
+				v := e.worldVersion()
+				r.SleepUntil(r.MaxHoldTime, func() bool { return e.worldVersion() != v || !r.HeldNow() })
+				if r.HeldNow() {
+					r.ReleaseHolds()
+					r.Settle()
+				}
+				continue
+			}
 			// nothing else can happen: the descheduled goroutine gets to run
 			r.ReleaseHolds()
 			r.Settle()
